@@ -15,7 +15,7 @@ NOTES = "Property-based testing and fuzzing only. See DESIGN.md. Known findings:
 NOT_APPLICABLE = {}
 CHECKS = {
     "C04": {
-        "text": "Execution of everything the checker accepts: an exhaustive operator x operand-type matrix (23 binary operators x 15 x 15 operand types incl. tuples, lists of tuples and dicts, with variables and literals, unary operators, index, call, range bounds, function / method arguments, tuple parameters, destructuring, attribute, interpolation, iteration, conditions, conversions, raise arguments, assignments, returns: ~12k programs), CoreGen programs with 0-3 type-changing edits, and the conforming and mutated cases of the C05/C06/C07/C09 generators. Violation iff the run ends in TypeError, AttributeError, NameError or UnboundLocalError.",
+        "text": "Execution of everything the checker accepts: an exhaustive operator x operand-type matrix (23 binary operators x 15 x 15 operand types incl. tuples, lists of tuples and dicts, with variables and literals, unary operators, index, call, range bounds, function / method arguments, tuple parameters, destructuring, attribute, interpolation, iteration, conditions, conversions, raise arguments, assignments, returns, and every compound assignment x seven targets x 16 operand types with the target used as its declared type afterwards: ~13k programs), CoreGen programs with 0-3 type-changing edits, the conforming and mutated cases of the C05/C06/C07/C09 generators and generated constructors (fields assigned in loops that may run zero times, on one side of a branch only). Violation iff the run ends in TypeError, AttributeError, NameError or UnboundLocalError.",
         "design_ref": "DESIGN.md section 6 C04",
         "note": "Only the four exception classes of the statement count. Programs run in-process with a traced-line budget. Matrix cells and edit shapes of the open findings are excluded by construction and counted.",
         "technique": "property-based testing: exhaustive operator/type matrix + type-changing edits, executed against a 'does not go wrong' oracle (Hypothesis)",
@@ -27,10 +27,10 @@ CHECKS = {
         "technique": "property-based testing: model-based program generation (scoping / definite-assignment model carried by the generator) with planted faults, verdict oracle from the model and execution of accepted programs (Hypothesis)",
     },
     "C08": {
-        "text": "Generated exception forests, a raising callee and an enclosing function or method whose body is a random tree of raising sites nested in branches, loops, match arms, sequences and handles (guarded call, sites inside arms, sites after the handle), with the raise declaration drawn exact / empty / ancestors / random / non-exception; a coverage model decides the expected verdict. ~8k cases per quick run.",
+        "text": "Generated exception forests, a raising callee and an enclosing function or method whose body is a random tree of raising sites nested in branches, loops, match arms, sequences and handles (guarded call, sites inside arms, sites after the handle), with the raise declaration drawn exact / empty / ancestors / random / non-exception; handles with 1-3 arms in any order (descendant before ancestor, Exception anywhere), signatures without body that declare raises before the function; a coverage model decides the expected verdict, and every accepted conforming program is executed: a driver appended to the emitted module calls the function for six arguments (no raise, each class of the callee, the direct raise) and the printed trace plus the class that leaves the function are compared with the generator's own reference interpreter. ~32k cases per quick run, ~20k of them executed.",
         "design_ref": "DESIGN.md section 6 C08",
-        "note": "Only verdicts are judged here; that the emitted try/except catches exactly the listed classes is executed by C01 (handler_run counts in its evidence). Every generated block ends in a print so that value-typing of tails cannot interfere. Callee methods are outside the statement.",
-        "technique": "property-based testing: generated handler/declaration structures against a coverage model (Hypothesis)",
+        "note": "Both halves of the statement are judged: the verdict and, at run time, which arm runs and what escapes (C01 executes handles as well). Every generated block ends in a print so that value-typing of tails cannot interfere. Callee methods are outside the statement.",
+        "technique": "property-based testing: generated handler/declaration structures against a coverage model (verdict) and a reference interpreter (run-time trace of the emitted Python) (Hypothesis)",
     },
     "C07": {
         "text": "Two generators. (1) 12 definition forms (fin or mutable) x 4 assignment operators x 12 positions x 0-2 shadowing re-definitions, plus assignment to undefined names. (2) ScopeGen: shadow-heavy programs over small name pools generated together with a model of scoping and mutability (plain / annotated / tuple / annotated tuple definitions, loop variables, bindings, parameters, fin self, fin receivers, nested blocks, functions, methods); every assignment is legal under the model, optionally one assignment to a fin / undefined target (variable, tuple component, field through fin self / fin receiver) is planted. Verdict oracle: reject iff the visible definition, the receiver or self is fin, or the name is undefined. ~32k cases per quick run.",
@@ -39,19 +39,19 @@ CHECKS = {
         "technique": "property-based testing: model-based program generation (scope / mutability model) with planted illegal assignments, plus a definition-form x position matrix (Hypothesis)",
     },
     "C06": {
-        "text": "Enumerated matrix inside generated surroundings: 11 consuming positions x 5 sources of null (of the required type or of a proper subtype: Int? into Float, B? into A) x 4 types for the reject direction, 8 positions x 4 flows x 4 types for the accept direction, each planted at one of 12 statement positions; ~8k cases per quick run, verdict oracle in both directions, matrix counts in the evidence.",
+        "text": "Enumerated matrix inside generated surroundings: 18 consuming positions (incl. an explicit argument for a parameter with a default value of a function / method / class / __init__, and the first, a later and a one-path-only assignment to a field inside an explicit constructor) x 5 sources of null (of the required type or of a proper subtype: Int? into Float, B? into A) x 4 types for the reject direction, 15 positions x 4 flows x 4 types for the accept direction, each planted at one of 12 statement positions; ~8k cases per quick run, verdict oracle in both directions, matrix counts in the evidence.",
         "design_ref": "DESIGN.md section 6 C06",
         "note": "`x ? d` only with a variable on the left; field reads through nullable receivers are left to C04; unexpected verdicts are re-run 10x (C12).",
         "technique": "property-based testing: position x source matrix with a verdict oracle in both directions (Hypothesis)",
     },
     "C05": {
-        "text": "Three generators. (nest) NestGen: blocks nested up to depth 4 (if/else, match, loops, handle; top level, function, method) with annotated definitions at every level and uses of any visible definition at deeper levels; 2/3 of the cases replace one use by a literal or by another visible variable of a definitely non-conforming type. (chain) chains of 3-4 classes with a method overridden further down with an unrelated parameter type; calls through instances and through self conform iff they conform to the nearest definition. (targeted) a fully annotated world plus one generated target (function/method/constructor signature, annotated definition, declared return type) and one use planted at one of 12 positions; 2/7 conforming (must be accepted), 5/7 with one single-point non-conforming mutation (must be rejected with diagnostics). ~11k cases per quick run; the kind x position x mutation histogram is part of the evidence.",
+        "text": "Three generators. (nest) NestGen: blocks nested up to depth 4 (if/else, match, loops, handle; top level, function, method) with annotated definitions at every level and uses of any visible definition at deeper levels; 2/3 of the cases replace one use by a literal or by another visible variable of a definitely non-conforming type. (chain) chains of 3-4 classes with a method overridden further down with an unrelated parameter type; calls through instances and through self conform iff they conform to the nearest definition. (targeted) a fully annotated world plus one generated target (function/method/constructor signature, annotated definition, declared return type, an annotated definition that re-defines a name and mentions the old variable in its initialiser; class headers mix plain and def parameters in any order) and one use planted at one of 12 positions; 2/7 conforming (must be accepted), 5/7 with one single-point non-conforming mutation (must be rejected with diagnostics). ~11k cases per quick run; the kind x position x mutation histogram is part of the evidence.",
         "design_ref": "DESIGN.md section 6 C05",
         "note": "Subtyping used for 'conforming' is exactly Int <: Float, B <: A, T <: Any; undocumented pairs are never used. Unexpected verdicts are re-run 10x (C12). Two open over-rejection findings steer the value generator.",
         "technique": "property-based testing: generated nested programs / class chains with one planted non-conforming use, and single-point mutation of targeted conforming uses; verdict oracle from the declared signatures (Hypothesis)",
     },
     "C15": {
-        "text": "Metamorphic check: CoreGen, API-shaped (members in any order) and WideGen programs and an injective renaming of their user-chosen names into ordinary and special-looking names, chains of prefix-related names, and (a quarter of the cases) a renaming under which any two identifiers are prefix-related; verdicts must agree, the output of the renamed program must be the renamed output (Python ast), and no renamed name may capture an identifier the generator itself introduced (scope-aware, via symtable). Two open findings remove the names they concern from the pool.",
+        "text": "Metamorphic check: CoreGen, API-shaped (members in any order) and WideGen programs and an injective renaming of their user-chosen names into ordinary and special-looking names, chains of prefix-related names, (a quarter of the cases) a renaming under which any two identifiers are prefix-related, and programs whose names are re-defined with other types where one name is renamed to another name plus a mangling-style suffix (count next to count_1); verdicts must agree, the output of the renamed program must be the renamed output (Python ast), and no renamed name may capture an identifier the generator itself introduced (scope-aware, via symtable). Two open findings remove the names they concern from the pool.",
         "design_ref": "DESIGN.md section 6 C15",
         "note": "User names are recognised by their letters+number form (every generator numbers its identifiers); generator-introduced names are read off out(P). Verdict differences are re-run 10x to separate them from C12's nondeterminism.",
         "technique": "property-based testing: metamorphic relation under alpha-renaming with a scope-aware capture oracle (Hypothesis)",
@@ -63,43 +63,43 @@ CHECKS = {
         "technique": "property-based testing: generated trigger x position programs with a static free-name / import oracle (Hypothesis)",
     },
     "C17": {
-        "text": "Generated API-shaped programs (functions with defaults/varargs, classes with arguments, parents with arguments, several parents, interfaces, methods, operator definitions, members and definitions in random order), both annotate settings; the expected Python API is computed from the model and compared with FunctionDef/ClassDef nodes of the emitted module.",
+        "text": "Generated API-shaped programs (functions with defaults/varargs, classes with arguments, parents with arguments, several parents, interfaces, body-less types that name a parent interface and are implemented by classes, methods, operator definitions, members and definitions in random order), both annotate settings; the expected Python API is computed from the model and compared with FunctionDef/ClassDef nodes of the emitted module.",
         "design_ref": "DESIGN.md section 6 C17",
         "note": "Operator-to-dunder table taken from src/check/context/function/python.rs; only structure is compared, nothing is executed.",
         "technique": "property-based testing: model-derived expected API vs emitted ast (Hypothesis)",
     },
     "C20": {
-        "text": "Complete tabulation of is_superset_of over a finite universe per generated hierarchy (every plain class of the context, List/Set/Dict/Tuple instantiations to depth 2 incl. 2-3-argument generics that differ in the first / middle / last argument, nullable variants, unions of two, mixed-nullability unions, both bracketings of unions of three, and names the checker itself builds from source annotations: twins of constructed names and source-written unions in every nullability pattern; ~300-500 terms, all ordered pairs, twice from freshly built names) and exhaustive evaluation of the order and union laws on the matrix; Hypothesis varies the hierarchy.",
+        "text": "Complete tabulation of is_superset_of over a finite universe per generated hierarchy (every plain class of the context incl. user classes whose parents are instantiations of a generic class and one that reaches the same generic class twice with different arguments, List/Set/Dict/Tuple/Collection instantiations to depth 2 incl. 2-3-argument generics that differ in the first / middle / last argument, nullable variants, unions of two, mixed-nullability unions, both bracketings of unions of three, and names the checker itself builds from source annotations: twins of constructed names and source-written unions in every nullability pattern; ~300-500 terms, all ordered pairs, twice from freshly built names) and exhaustive evaluation of the order and union laws on the matrix; Hypothesis varies the hierarchy.",
         "design_ref": "DESIGN.md section 6 C20",
         "note": "Reference order on plain classes = closure of the parents the context itself reports. Variance of generics is not asserted, only that instantiations whose arguments are unrelated in some position are unrelated; None-vs-Any is not asserted. Function types only for reflexivity. The worker's lattice op only tabulates.",
         "technique": "property-based testing: exhaustive small-scope enumeration of a relation per generated hierarchy, algebraic-law oracle (Hypothesis)",
     },
     "C19": {
-        "text": "Fault injection at a known line of accepted generated programs and samples (8 fault kinds incl. a return annotation that disagrees with a value returned lines below, top level and nested blocks, 40% after a prelude with line breaks inside string literals / doc-strings, single- and multi-file), mutated samples, all invalid repository samples and a catalogue of context/lexical/end-of-input errors; the rendered diagnostics are parsed leniently and judged against the source text (path, line/column range, verbatim quoted lines, fault line reported).",
+        "text": "Fault injection at a known line of accepted generated programs and samples (9 fault kinds incl. a return annotation that disagrees with a value returned lines below and a faulty token behind a string literal full of escape sequences at the end of its line; a fifth of the faulty files with CRLF line ends; top level and nested blocks, 40% after a prelude with line breaks inside string literals / doc-strings, single- and multi-file), mutated samples, all invalid repository samples and a catalogue of context/lexical/end-of-input errors; the rendered diagnostics are parsed leniently and judged against the source text (path, line/column range, verbatim quoted lines, fault line reported).",
         "design_ref": "DESIGN.md section 6 C19",
         "note": "Judges the rendered strings returned by mamba_to_python (what a user sees); the TypeErr.causes hook is not needed. Statements are injected only between two complete one-line statements of equal indentation; injected literals are unique in the file (open finding F37).",
         "technique": "property-based testing: fault injection with a positional/well-formedness oracle over rendered diagnostics (Hypothesis)",
     },
     "C13": {
-        "text": "Generated projects (1-5 files, nested directories, cross-file class/function use, optional single faulty file, zero-byte / newline-only / comment-only files, fresh or pre-populated output directory incl. longer outputs of an earlier run at the output paths, custom directory names, second runs after one file was made shorter / longer) run through mamba::transpile_dir in a scratch directory with a before/after snapshot of the whole tree, plus permutations of the file list, an added unrelated file and a removed used file through mamba_to_python.",
+        "text": "Generated projects (1-5 files, nested directories, cross-file class/function use, files with interfaces / marker types / nullable, tuple and function annotations / sqrt (imports the generator adds per file), optional single faulty file, zero-byte / newline-only / comment-only files, fresh or pre-populated output directory incl. longer outputs of an earlier run at the output paths, custom directory names, second runs after one file was made shorter / longer) run through mamba::transpile_dir in a scratch directory with a before/after snapshot of the whole tree, plus permutations of the file list, an added unrelated file and a removed used file through mamba_to_python.",
         "design_ref": "DESIGN.md section 6 C13",
         "note": "The binary's main() only parses options and calls transpile_dir; the check drives transpile_dir directly. Work directories under /verif/work are removed after each case.",
         "technique": "property-based testing: generated project histories with file-system snapshot invariants and permutation/extension/removal metamorphic relations (Hypothesis)",
     },
     "C14": {
-        "text": "Metamorphic check over ~3k (quick) generated programs (CoreGen, typed expressions, API-shaped, WideGen) and repository samples: a variant with 1-4 layout trivia (trailing/whole-line comments, blank and whitespace-only lines, trailing spaces, final newline, CRLF, doubled grouping parentheses) must get the same verdict and byte-identical Python (equal Python ast for parentheses).",
+        "text": "Metamorphic check over ~3k (quick) generated programs (CoreGen, typed expressions, API-shaped, WideGen) and repository samples: a variant with 1-4 layout trivia (trailing/whole-line comments, blank and whitespace-only lines, trailing spaces, final newline, CRLF, doubled grouping parentheses, new redundant parentheses around a prefix of an attribute chain / a whole right-hand side / an operand; blank lines preferably where the grammar takes exactly one line break) must get the same verdict and byte-identical Python (equal Python ast for parentheses).",
         "design_ref": "DESIGN.md section 6 C14",
         "note": "Code lines are recognised by quote parity (inputs with multi-line strings are replaced by a fixed program); verdict differences are re-run 12x to separate them from C12's nondeterminism.",
         "technique": "property-based testing: metamorphic relation under layout-preserving transformations (Hypothesis)",
     },
     "C12": {
-        "text": "History/schedule invariant over one input: every generated program, repository sample and two-file project is transpiled >=20 times (same process, concurrent threads, fresh processes, after a history of other inputs in another process, and at the end of a same-thread history of related programs: same classes with other types, a type fault appended, a syntax fault); verdicts must agree and successful outputs must be byte-identical. Each repetition redraws the hash seeds, which is the only schedule-dependent input of a program without shared state.",
+        "text": "History/schedule invariant over one input: every generated program, repository sample, two-file project and a fixed list of ~110 verdict-edge programs (mixed Int / Float operators in both orders, a field a child re-declares with another type) is transpiled >=20 times (same process, concurrent threads, fresh processes, after a history of other inputs in another process, and at the end of a same-thread history of related programs: same classes with other types, a type fault appended, a syntax fault); verdicts must agree and successful outputs must be byte-identical. Each repetition redraws the hash seeds, which is the only schedule-dependent input of a program without shared state.",
         "design_ref": "DESIGN.md section 6 C12",
         "note": "Thread interleavings are not controlled (no shared mutable state in src/); a two-outcome dependence with probability p is missed with probability about (1-p)^20 + p^20 per input.",
         "technique": "property-based testing: repeated-run / multi-thread / multi-process determinism oracle over generated inputs (Hypothesis)",
     },
     "C02": {
-        "text": "Generated-input search: CoreGen and typed-expression programs, WideGen programs (builders with conditions, unions / tuples / function types in every annotation position, with, vararg, doc-strings, imports, ...), all repository samples, their token-level mutations, a literal/identifier stress generator and a shape stress generator (parameter lists x definition sites, definition targets x initialiser forms, value positions x if / match forms, nested ternaries with blocks), both annotate settings; every emitted module must pass CPython's compile(). Sampled; the input class of the open known finding F27 is filtered on the input and counted.",
+        "text": "Generated-input search: CoreGen and typed-expression programs, WideGen programs (builders with conditions, unions / tuples / function types in every annotation position, with, vararg, doc-strings, imports, ...), all repository samples, their token-level mutations, a literal/identifier stress generator and a shape stress generator (parameter lists x definition sites, definition targets x initialiser forms, value positions x if / match forms, nested ternaries with blocks, operand forms Python does not take bare - not, signs, conditional expressions - below every kind of binary operator in nine statement positions), both annotate settings; every emitted module must pass CPython's compile(). Sampled; the input class of the open known finding F27 is filtered on the input and counted.",
         "design_ref": "DESIGN.md section 6 C02",
         "note": "CPython 3.11 is 'the Python 3 compiler'; only compile(), never execution.",
         "technique": "property-based testing: grammar-based and mutation-based generation against CPython's compiler as oracle (Hypothesis)",
@@ -111,13 +111,13 @@ CHECKS = {
         "technique": "property-based testing: metamorphic/differential comparison of two configurations (Hypothesis)",
     },
     "C01": {
-        "text": "Differential execution: ~2400 (quick) / ~100k (thorough) generated well-typed programs of the executable core language, transpiled with annotate off and on, executed in-process and compared (printed strings, uncaught exception class) with an independent reference interpreter of the model. Construct x context coverage is counted per run. Sampled, not exhaustive.",
+        "text": "Differential execution: ~2400 (quick) / ~100k (thorough) generated well-typed programs of the executable core language, transpiled with annotate off and on, executed in-process and compared (printed strings, uncaught exception class) with an independent reference interpreter of the model. Constructs include match over tuple subjects with literal / wildcard tuple patterns, handles with unnamed arms, early returns, arithmetic towers. Construct x context coverage is counted per run. Sampled, not exhaustive.",
         "design_ref": "DESIGN.md section 6 C01, section 3.1",
         "note": "Trusted: the reference interpreter pbt/model.py and its assumptions S1-S12 (documented semantics; operators are CPython's); CPython 3.11 executes the output. Constructs the docs leave open are not generated. Rejected programs are not judged here.",
         "technique": "property-based testing: type-directed program generation + differential execution against a reference interpreter (Hypothesis)",
     },
     "C10": {
-        "text": "Finite enumeration (435k trees: every parent/slot/child and parent/slot/child/slot/grandchild combination and every binary parent with two compound children over 49 constructors incl. the desugared shapes) of hand-built Core trees printed by mamba's Display, plus random deeper trees, end-to-end Mamba expressions in 10 statement contexts, and nested tuples / lists / call arguments / builder conditions in 12 statement contexts judged by the values the emitted module prints; round-trip oracle: CPython's ast.parse of the printed text must equal the tree. The enumeration is complete for its stated sub-space; deeper trees are sampled.",
+        "text": "Finite enumeration (435k trees: every parent/slot/child and parent/slot/child/slot/grandchild combination and every binary parent with two compound children over 49 constructors incl. the desugared shapes) of hand-built Core trees printed by mamba's Display, plus random deeper trees, end-to-end Mamba expressions in 10 statement contexts, a deterministic stress list of ~1100 source expressions (signed literals and names in every operand slot of every operator, comparisons as operands of comparisons), and nested tuples / lists / call arguments / builder conditions in 12 statement contexts judged by the values the emitted module prints; round-trip oracle: CPython's ast.parse of the printed text must equal the tree. The enumeration is complete for its stated sub-space; deeper trees are sampled.",
         "design_ref": "DESIGN.md section 6 C10, appendix A",
         "note": "Trusted: CPython 3.11 ast.parse as definition of Python grouping; the Core->ast table (appendix A); and/or compared after flattening same-operator chains. Invalid emitted Python is left to C02.",
         "technique": "property-based testing: exhaustive small-scope enumeration + random trees + end-to-end round-trip through CPython's parser (Hypothesis)",
